@@ -59,7 +59,7 @@ func (c *Ctx) check16m(code []g.Instruction, start int, M uint64, legacy bool, n
 		return
 	}
 	rep.Traces++
-	rc, rs, err := ref.ReadListing(listing, M)
+	rc, rs, err := ref.ReadListing(listing, M, legacy)
 	if err != nil {
 		fail("unreadable-listing", fmt.Sprintf("%v; listing:\n%s", err, listing))
 		return
